@@ -644,10 +644,12 @@ func TestVerifC19Legacy(t *testing.T) {
 	}
 
 	remotes := []string{"zmock"}
-	bodies := []string{"none", "json", "form", "form-token"}
+	// "form-token-charset" (Content-Type with a parameter) is in the quick tier too: it was only in
+	// the thorough tier at first, which is how the media-type comparison defect (b34d8a1) stayed
+	// unnoticed until the first thorough run.
+	bodies := []string{"none", "json", "form", "form-token", "form-token-charset"}
 	if vrep.Thorough() {
 		remotes = append(remotes, "zthrd")
-		bodies = append(bodies, "form-token-charset")
 	}
 	type authslot struct{ scheme, kind string }
 	auths := []authslot{{}}
